@@ -1113,6 +1113,19 @@ def _is_assert(s):
                for x in walk(kids(e)[2]))
 
 
+# calls without any effect on what the model describes (trusted: listed here, nowhere else).  `ERR_clear_error()`: the
+# per-thread OpenSSL error queue is not part of the glue model; its hygiene (F15) is exercised by the C18 harness
+NOOP_CALLS = ("ERR_clear_error",)
+
+
+def _is_noop_call(s):
+    e = _strip(s)
+    if e["kind"] != "CallExpr" or len(kids(e)) != 1:
+        return False
+    return any(x.get("kind") == "DeclRefExpr" and x.get("referencedDecl", {}).get("name") in NOOP_CALLS
+               for x in walk(kids(e)[0]))
+
+
 def _only(s):
     if s["kind"] == "CompoundStmt":
         if len(kids(s)) != 1:
